@@ -41,6 +41,7 @@ INVARIANT BoundaryNoNbr
 INVARIANT NoErr
 INVARIANT ClosureAgrees
 PROPERTY OnlyRefines
+PROPERTY StrictProgress
 PROPERTY BisectIsClosure
 PROPERTY BothIsClosure
 PROPERTY UniformIsUniform
@@ -228,6 +229,36 @@ def _op_of(e):
     return (e["k"],)
 
 
+CFG_MIN = """CONSTANTS Nt = %(Nt)d Nx = %(Nx)d Glue = %(Glue)s MaxL = 4 Budget = %(Budget)d
+  Ops = {"bisect"} SortSpace = TRUE GradeSkip = TRUE P = 4 CTn = 4 CSn = 4
+SPECIFICATION Spec
+VIEW View
+CHECK_DEADLOCK FALSE
+INVARIANT %(Inv)s
+"""
+
+
+def minimality(ctx, tier):
+    """'smallest refinement': least among refinements along the requested axis, and of least cardinality among all
+    1-irregular refinements containing the bisection (free refinements by up to 3 bisections); the literal reading over
+    all refinements is false at the design level and is run as a diagnostic that must be violated."""
+    out = []
+    plan = [(1, 2, False, 1), (1, 2, True, 1)] if tier == "quick" else [(1, 2, False, 2), (1, 2, True, 2), (2, 1, False, 2), (1, 3, True, 1)]
+    for Nt, Nx, glue, b in plan:
+        for inv in ("MinimalAx", "MinimalCard"):
+            res = tlc.run_tlc("STMesh", CFG_MIN % {"Nt": Nt, "Nx": Nx, "Glue": "TRUE" if glue else "FALSE", "Budget": b, "Inv": inv}, timeout=3000)
+            out.append({"layout": "%dx%d%s" % (Nt, Nx, "g" if glue else "o"), "budget": b, "invariant": inv, "tlc": res.stats(), "holds": res.ok})
+            if res.machinery_error:
+                ctx.machinery_error("minimality %s: %s" % (inv, res.machinery_error))
+            elif not res.ok:
+                ctx.violation("model:STMesh:%s" % inv, "STMesh violates %s (the closure is not the smallest refinement)" % inv, {"tlc_output_tail": res.output[-2500:]})
+    res = tlc.run_tlc("STMesh", CFG_MIN % {"Nt": 1, "Nx": 2, "Glue": "FALSE", "Budget": 1, "Inv": "MinimalLiteral"}, timeout=3000)
+    out.append({"layout": "1x2o", "budget": 1, "invariant": "MinimalLiteral (diagnostic, must be violated)", "violated": bool(res.violated)})
+    if not res.violated and not res.machinery_error:
+        ctx.spec_drift("MinimalLiteral unexpectedly holds")
+    return out
+
+
 def binding_selftest(ctx):
     """Corrupt one recorded field / drop one leaf: the judge must reject (DESIGN §4.6)."""
     lay = ml.Layout.uniform(1, 3, True, 8)
@@ -289,6 +320,9 @@ def run(prop, tier, seed):
             states += st["tlc"]["distinct"]
             transitions += st["tlc"]["generated"]
             ctx.log("C %s" % st)
+    minimal = []
+    if prop == "C02":
+        minimal = minimality(ctx, tier)
     tr = random_traces(ctx, prop, tier, seed)
     ctx.log("traces %s" % {k: v for k, v in tr.items() if k != "per_layout"})
     selftest = binding_selftest(ctx)
@@ -297,7 +331,7 @@ def run(prop, tier, seed):
         "traces_validated_against_impl": judged + tr["traces"],
         "samples": [{"exhaustive_layout": stats_a[0]}, {"random_trace_events": tr["samples"]}],
         "exhaustive": True,
-        "exhaustive_view": stats_a, "exhaustive_ordered": stats_b, "exhaustive_doerfler_actions": stats_c,
+        "minimality_models": minimal, "exhaustive_view": stats_a, "exhaustive_ordered": stats_b, "exhaustive_doerfler_actions": stats_c,
         "random_traces": tr, "binding_selftest": selftest,
         "rule": "every state reachable within the stated primitive-bisection budget from each root layout "
                 "(operations: bisect time/space, both, uniform, uniform space), TLC graph == real-code graph; "
